@@ -3,6 +3,7 @@ package cw
 
 import (
 	"io"
+	"strings"
 	"math/rand"
 	"time"
 
@@ -263,6 +264,17 @@ func RunRB(out, out2, mode string) {
 		}
 		for i := 0; i < nb; i++ {
 			h := bamx.Header(1 + r.Intn(3))
+			if i%4 == 1 {
+				// a header whose encoding ends exactly on (or one byte either side of) a BGZF block
+				// boundary: the size is steered with a comment line
+				target := []int{bgzf.BlockSize, bgzf.BlockSize - 1, bgzf.BlockSize + 1, 2 * bgzf.BlockSize}[(i/4)%4]
+				h.Comments = []string{strings.Repeat("x", 1000)}
+				if probe, err := bamx.Build(h, nil, 1, -1); err == nil {
+					if l0 := bamx.Parse(probe); l0.OK && target-int(l0.HdrLen)+1000 > 0 {
+						h.Comments = []string{strings.Repeat("x", target-int(l0.HdrLen)+1000)}
+					}
+				}
+			}
 			var recs []*sam.Record
 			nrec := []int{0, 1, 3, 12, 40}[r.Intn(5)]
 			pos := 0
